@@ -84,6 +84,15 @@ def fl(x):
     return float("nan") if x is None else float(x)
 
 
+def label_positions(index, names, kind):
+    """Map every expected group label to its position in a result axis. The ORDER of the groups in the result is not
+    part of the property, only that every group appears exactly once under its own label."""
+    labs = labels_of(index)
+    if len(labs) != len(names) or sorted(labs, key=repr) != sorted(names, key=repr):
+        raise Violation(kind, f"group labels {labs} are not exactly the groups {names}")
+    return {l: i for i, l in enumerate(labs)}
+
+
 def labels_of(index):
     """Group labels as the caller sees them; pandas labels groups of a one-element `by` list with 1-tuples,
     which the property does not forbid, so they are unwrapped before comparison."""
@@ -91,8 +100,20 @@ def labels_of(index):
     for x in index:
         if isinstance(x, tuple) and len(x) == 1:
             x = x[0]
-        out.append(x)
+        out.append(norm_label(x))
     return out
+
+
+def norm_label(x):
+    """NumPy scalars -> Python scalars (recursively inside tuples) so that labels compare and hash like the keys."""
+    if isinstance(x, tuple):
+        return tuple(norm_label(y) for y in x)
+    if hasattr(x, "item") and not isinstance(x, (str, bytes)):
+        try:
+            return x.item()
+        except Exception:  # noqa: BLE001
+            return x
+    return x
 
 
 def check(case, rec):
@@ -135,11 +156,11 @@ def check(case, rec):
     if len(groups) >= 2:
         m = call("pc_grouped_cross", pyrepseq.pc_grouped_cross, df, by_arg, on)
         names = list(groups.keys())
-        if labels_of(m.index) != names or labels_of(m.columns) != names:
-            raise Violation("pc_grouped_cross-labels", f"labels {list(m.index)} != sorted keys {names}")
-        for a, ka in enumerate(names):
-            for b, kb in enumerate(names):
-                v = m.values[a, b]
+        ri, ci = label_positions(m.index, names, "pc_grouped_cross-labels"), label_positions(m.columns, names, "pc_grouped_cross-labels")
+        for ka in names:
+            for kb in names:
+                a, b = names.index(ka), names.index(kb)
+                v = m.values[ri[ka], ci[kb]]
                 if a == b:
                     if not math.isnan(v):
                         raise Violation("pc_grouped_cross-diagonal", f"diagonal [{ka}] = {v!r}, expected undefined (NaN)")
@@ -153,46 +174,48 @@ def check(case, rec):
     names = list(groups.keys())
     if edges != 0:
         t = call("pcDelta_grouped", pyrepseq.pcDelta_grouped, df, by_arg, "seq", bins=list(edges))
-        if labels_of(t.index) != names:
-            raise Violation("pcDelta_grouped-labels", f"row labels {list(t.index)} != {names}")
+        rpos = label_positions(t.index, names, "pcDelta_grouped-labels")
         for k, v in groups.items():
             seqs = [r["seq"] for r in v]
             d = [O.lev(seqs[i], seqs[j]) for i in range(len(seqs)) for j in range(i + 1, len(seqs))]
             h = O.hist(d, edges)
             tot = sum(h)
             exp = [x / tot if tot else float("nan") for x in h]
-            row = t.loc[[k]].values[0] if nby == 1 else t.values[names.index(k)]
+            row = t.values[rpos[k]]
             all_close("pcDelta_grouped-row", list(row), exp, f"group {k}")
         if len(groups) >= 2:
             c = call("pcDelta_grouped_cross", pyrepseq.pcDelta_grouped_cross, df, by_arg, "seq", condensed=True, bins=list(edges))
             pairs = [(a, b) for i, a in enumerate(names) for b in names[i + 1:]]
             if len(c) != len(pairs):
                 raise Violation("pcDelta_grouped_cross-rows", f"{len(c)} rows, expected {len(pairs)}")
-            for ri, (a, b) in enumerate(pairs):
+            rows_by_pair = {}
+            for ri2 in range(len(c)):
+                lab = tuple(labels_of(c.index[ri2]))
+                rows_by_pair[frozenset(lab) if len(lab) == 2 else lab] = ri2
+            for (a, b) in pairs:
+                key = frozenset([a, b])
+                if key not in rows_by_pair:
+                    raise Violation("pcDelta_grouped_cross-labels", f"no row labelled with the pair {(a, b)}: {list(c.index)}")
                 d = [O.lev(x["seq"], y["seq"]) for x in groups[a] for y in groups[b]]
                 h = O.hist(d, edges)
                 tot = sum(h)
                 exp = [x / tot if tot else float("nan") for x in h]
-                all_close("pcDelta_grouped_cross-row", list(c.values[ri]), exp, f"groups {a} x {b}")
-                lab = c.index[ri]
-                if tuple(labels_of(lab)) != (a, b):
-                    raise Violation("pcDelta_grouped_cross-labels", f"row {ri} labelled {lab}, expected {(a, b)}")
+                all_close("pcDelta_grouped_cross-row", list(c.values[rows_by_pair[key]]), exp, f"groups {a} x {b}")
     else:
         within = {k: (O.pc_exact([r["seq"] for r in v]) if len(v) >= 2 else None) for k, v in groups.items()}
         t = call("pcDelta_grouped0", pyrepseq.pcDelta_grouped, df, by_arg, "seq", bins=0)
         vals = np.asarray(t)
         if vals.size != len(groups):
             raise Violation("pcDelta_grouped-bins0", f"bins=0: result holds {vals.size} values for {len(groups)} groups: {t!r}"[:600])
-        if labels_of(t.index) != names:
-            raise Violation("pcDelta_grouped-labels", f"bins=0 row labels {list(t.index)} != {names}")
-        all_close("pcDelta_grouped-bins0-value", vals.reshape(-1).tolist(), [fl(within[k]) for k in names], "bins=0 per-group pc")
+        rpos = label_positions(t.index, names, "pcDelta_grouped-labels")
+        flat = vals.reshape(-1).tolist()
+        all_close("pcDelta_grouped-bins0-value", [flat[rpos[k]] for k in names], [fl(within[k]) for k in names], "bins=0 per-group pc")
         if len(groups) >= 2:
             sq = call("pcDelta_grouped_cross0", pyrepseq.pcDelta_grouped_cross, df, by_arg, "seq", bins=0)
-            if labels_of(sq.index) != names or labels_of(sq.columns) != names:
-                raise Violation("pcDelta_grouped_cross-labels", f"square labels {list(sq.index)} != {names}")
+            ri, ci = label_positions(sq.index, names, "pcDelta_grouped_cross-labels"), label_positions(sq.columns, names, "pcDelta_grouped_cross-labels")
             for a, ka in enumerate(names):
                 for b, kb in enumerate(names):
-                    v = sq.values[a, b]
+                    v = sq.values[ri[ka], ci[kb]]
                     if a == b:
                         exp = fl(within[ka])
                         if not close(v, exp, 1e-12):
@@ -204,8 +227,14 @@ def check(case, rec):
             if len(groups) >= 3:
                 c = call("pcDelta_grouped_cross0c", pyrepseq.pcDelta_grouped_cross, df, by_arg, "seq", bins=0, condensed=True)
                 pairs = [(a, b) for i, a in enumerate(names) for b in names[i + 1:]]
-                exp = [float(O.pc_cross_exact([r["seq"] for r in groups[a]], [r["seq"] for r in groups[b]])) for a, b in pairs]
-                all_close("pcDelta_grouped_cross-condensed0", np.asarray(c).reshape(-1).tolist(), exp, "bins=0 condensed")
+                flat = np.asarray(c).reshape(-1).tolist()
+                if len(flat) != len(pairs):
+                    raise Violation("pcDelta_grouped_cross-rows", f"bins=0 condensed: {len(flat)} values for {len(pairs)} pairs")
+                byp = {frozenset(labels_of(c.index[i])): flat[i] for i in range(len(flat))}
+                for a, b in pairs:
+                    exp = float(O.pc_cross_exact([r["seq"] for r in groups[a]], [r["seq"] for r in groups[b]]))
+                    if frozenset([a, b]) not in byp or not close(byp[frozenset([a, b])], exp, 1e-12):
+                        raise Violation("pcDelta_grouped_cross-condensed0", f"pair {(a, b)}: got {byp.get(frozenset([a, b]))!r}, expected {exp!r}")
 
     # ---- entropies
     base = case.get("base", 2.0)
@@ -246,7 +275,7 @@ def check(case, rec):
 def table_case(draw, tier="quick"):
     ngroups = draw(st.integers(1, 6))
     keytype = draw(st.sampled_from(["str", "int"]))
-    keys0 = ["b", "a", "d", "c", "B", "aa"] if keytype == "str" else [3, 1, 10, 2, -4, 7]
+    keys0 = ["b", "a", "d", "c", "B", "aa"] if keytype == "str" else [3, 10, 1, 2, -4, 27]
     keys1 = ["x", "y"] if draw(st.booleans()) else [1, 0]
     nby = draw(st.sampled_from([1, 1, 2]))
     labels = ["L1", "L2", "L3", "L 4"]
